@@ -25,6 +25,14 @@ Theorem C10_shrink_decide_sound : forall modulus max_n0 max_d max_inc min_n0 min
   end.
 Proof. exact shrink_decide_core. Qed.
 
+(* the boundary clause of the `2*mod` test: with `(!max_included && !min_included)` in place of `||` the procedure
+   computes the same outcome on every input (a range of length exactly 2*mod with one open end always meets two
+   hyperplanes): that mutation is behaviour-preserving and no correspondence check can (or should) flag it *)
+Theorem C10_boundary_clause_or_and_equivalent : forall modulus mx mn,
+  (0 < modulus)%Z -> (0 < snd (fst mx))%Z -> (0 < snd (fst mn))%Z ->
+  shrink_decide modulus mx mn = shrink_decide_and modulus mx mn.
+Proof. exact boundary_or_and_equivalent. Qed.
+
 (* the same at the level of points and of the abstract component interface: for a point of d1 (on a hyperplane of cg)
    that is also in d2 (between the bounds d2.maximize / d2.minimize returned), the added equality holds, and the
    "no hyperplane" outcome is impossible *)
